@@ -164,3 +164,10 @@ Proof.
       destruct (Nat.ltb_spec (toff + vsize tl) j); [|lia]. simpl.
       apply (IHr _ l r off i j); auto.
 Qed.
+
+Lemma occurs_nodup t : forall toff u off, NoDup (vleaves t) -> occurs t toff u off -> NoDup (vleaves u).
+Proof.
+  induction t as [x|tl IHl tr IHr]; intros toff u off ND Ho; simpl in Ho.
+  - destruct Ho as [[<- _]|[]]. exact ND.
+  - destruct Ho as [[<- _]|[Ho|Ho]]; auto; simpl in ND; destruct (NoDup_app_split _ _ ND) as (A & B & _); eauto.
+Qed.
